@@ -96,6 +96,8 @@ type State struct {
 	ReadLog  *[]string      // when set: heap classes read (footprint check of opaque predicates)
 	Written  map[string]bool
 	HavRepo  bool     // a havoc of repo classes happened: untouched classes are no longer the entry heap
+	HavExcept     []string // type prefixes exempt from every repo havoc so far (classes not yet read keep their entry value)
+	PendingExcept []string // set by the caller of havocAll: the types the havocking callee promises to preserve
 	HavExt   bool     // same for non-repo classes
 	HavGhost bool     // ghost state was havocked (call of repository code without contract)
 	HavPrefix []string // class prefixes havocked by loops
@@ -117,7 +119,7 @@ type heldMon struct {
 }
 
 func (st *State) clone() *State {
-	n := &State{PC: st.PC, Frontier: st.Frontier, HavRepo: st.HavRepo, HavExt: st.HavExt, HavGhost: st.HavGhost, HavPrefix: append([]string{}, st.HavPrefix...), Escaped: append([]string{}, st.Escaped...), Held: append([]heldMon{}, st.Held...), LocalCells: append([]localCell{}, st.LocalCells...)}
+	n := &State{PC: st.PC, Frontier: st.Frontier, HavRepo: st.HavRepo, HavExt: st.HavExt, HavGhost: st.HavGhost, HavExcept: append([]string{}, st.HavExcept...), HavPrefix: append([]string{}, st.HavPrefix...), Escaped: append([]string{}, st.Escaped...), Held: append([]heldMon{}, st.Held...), LocalCells: append([]localCell{}, st.LocalCells...)}
 	n.Frames = make([]*Frame, len(st.Frames))
 	for i, f := range st.Frames {
 		nf := *f
@@ -271,7 +273,15 @@ func (st *State) classHavocked(class string) bool {
 	if isGhostClass(class) {
 		return st.HavGhost
 	}
-	if isRepoClass(class) && st.HavRepo || !isRepoClass(class) && st.HavExt {
+	if isRepoClass(class) && st.HavRepo {
+		for _, t := range st.HavExcept {
+			if strings.HasPrefix(class, t+".") {
+				return false
+			}
+		}
+		return true
+	}
+	if !isRepoClass(class) && st.HavExt {
 		return true
 	}
 	return false
